@@ -39,7 +39,12 @@ func TestVerifSim(t *testing.T) {
 	log.SetOutput(io.Discard)
 	hlib.Main("h2", map[string]hlib.Scenario{
 		"C07": scenarioMachine,
-		"C08": scenarioMachine,
+		"C08": func(c *hlib.RunCtx) *hlib.Violation {
+			if c.Flag("family") == "diskfault" {
+				return scenarioUploadFaults(c)
+			}
+			return scenarioMachine(c)
+		},
 		"C01": scenarioMachine,
 		"C02": scenarioMachine,
 		"C19": scenarioMachine,
@@ -110,6 +115,7 @@ type machine struct {
 	cleanSeq    int // requests before this index precede the latest gotelemetry clean
 	killsOn     bool
 	uplUnusable bool
+	markerAtSend map[int]bool // request seq -> upload/<week>.json existed when it was sent
 	faultsOn    bool
 	sawKill     bool
 	reportMaker map[string]*simrt.Task // week -> task that created local/<week>.json
